@@ -38,6 +38,9 @@ def run(ctx):
     jobs.append(job("v%d" % lams[seed % 4], valued, ["--leaf", str(lams[seed % 4]), "--style", "read", "--crc", "--boundary"]))
     jobs.append(job("i64", ident, ["--leaf", "64", "--style", "read"]))
     jobs.append(job("i4096", ident, ["--leaf", "4096", "--style", "writeto", "--crc"]))
+    # the way the source delivers its bytes must not matter: the last data arrive together with io.EOF
+    jobs.append(job("ieof", ident, ["--leaf", "64", "--style", "readeof"]))
+    jobs.append(job("veof", valued, ["--leaf", str(lams[(seed + 1) % 4]), "--style", "readeof", "--boundary"]))
     if ctx.thorough:
         for lam in (65, 96, 4096, 65536):
             jobs.append(job("vt%d" % lam, valued, ["--leaf", str(lam), "--style", "writeto", "--boundary"]))
